@@ -27,6 +27,11 @@ type c08Params struct {
 	Edit  string   `json:"edit"`
 	// Pack: consecutive handshake messages the peer sends without reading in between share one record
 	Pack bool `json:"pack,omitempty"`
+	// Restart > 0 (stream stack): the application calls Handshake with a one-second deadline; the peer falls silent
+	// after Restart messages of the flow; when the deadline has passed the application clears it and calls
+	// Handshake again, and a peer that starts from scratch sends the complete flow. What the endpoint has then been
+	// sent is Seq (the first Restart messages, then the whole flow): not a legal flow.
+	Restart int `json:"restart,omitempty"`
 }
 
 func (c08) ID() string    { return "C08" }
@@ -138,9 +143,24 @@ func c08List(tier string) []c08Params {
 				}
 			}
 		}
+		for _, role := range []string{"client", "server"} {
+			flows, order := c08ClientFlows, []string{"ecc", "ecdhe"}
+			if role == "server" {
+				flows, order = c08ServerFlows, []string{"ecc", "ecc-auth", "ecdhe"}
+			}
+			for _, fl := range order {
+				for k := 1; k < len(flows[fl]); k++ {
+					seq := append(append([]string(nil), flows[fl][:k]...), flows[fl]...)
+					out = append(out, c08Params{Stack: TLCP, Role: role, Flow: fl, Seq: seq, Edit: fmt.Sprintf("restart after deadline@%d", k), Restart: k})
+				}
+			}
+		}
 		// every sequence once more with consecutive handshake messages packed into one record (legal framing:
 		// what completes must be the same)
 		for _, q := range append([]c08Params(nil), out...) {
+			if q.Restart > 0 {
+				continue
+			}
 			q.Pack = true
 			out = append(out, q)
 		}
@@ -256,10 +276,62 @@ func (c08) Run(c *Case, src *vs.Src) *Result {
 		}
 		out := &res{}
 		w.Go("real", func() {
+			if p.Restart > 0 {
+				h.TReal.SetDeadline(vs.Now().Add(time.Second))
+				out.err = h.Real.Handshake()
+				if out.err != nil && isTimeout(out.err) {
+					h.TReal.SetDeadline(time.Time{})
+					out.err = h.Real.Handshake()
+				}
+				h.Real.Close()
+				return
+			}
 			out.err = h.Real.Handshake()
 			h.Real.Close()
 		})
+		if p.Restart > 0 {
+			w.Go("peer", func() {
+				// first attempt: the first Restart messages of the flow, then silence
+				script := func(seq []string) (ops []string) {
+					if realIsClient {
+						ops = append(ops, "rCH")
+						read := false
+						for _, k := range seq {
+							if (k == "CCS" || k == "FIN") && !read {
+								ops, read = append(ops, "rFLIGHT"), true
+							}
+							ops = append(ops, k)
+						}
+						return ops
+					}
+					for i, k := range seq {
+						ops = append(ops, k)
+						if k == "CH" && i == 0 {
+							ops = append(ops, "rFLIGHT")
+						}
+					}
+					return ops
+				}
+				pr := h.Peer
+				pr.Run(o, script(flow[:p.Restart]))
+				out.sent = append(out.sent, pr.Sent...)
+				vs.Sleep(1500 * time.Millisecond)
+				// second attempt: a peer that starts from scratch on the same transport
+				p2 := peer.New(false, pr.IsClient, pr.T, env.W.Rand("peer/restart"))
+				p2.OwnEncKey = pr.OwnEncKey
+				po := p2.Run(o, append(script(flow), "rFLIGHT"))
+				if po.Err != nil {
+					out.peerErr = fmt.Sprintf("%s: %v", po.StoppedAt, po.Err)
+				}
+				out.sent = append(out.sent, p2.Sent...)
+				out.recv = append(pr.Received, p2.Received...)
+				h.ClosePeerSide()
+			})
+		}
 		w.Go("peer", func() {
+			if p.Restart > 0 {
+				return
+			}
 			pr := h.Peer
 			var ops []string
 			if realIsClient {
